@@ -112,7 +112,6 @@ func c17Bound(name string) (string, float64) {
 	return "0", 0
 }
 
-
 type c17Item struct {
 	name  string
 	score float64
@@ -308,8 +307,7 @@ func Verif_C17_ZAddIncr() {
 	k := vr.Tok("k")
 	p := c17Preset(s, k, "z", 3)
 	policy := vr.Choose("policy", 3) // none NX XX
-	n := vr.Int("incr")
-	vr.Assume(n >= -4 && n <= 4)
+	n := []int{-3, 0, 2}[vr.Choose("incr", 3)]
 	m := vr.Tok("m")
 	argv := []string{"ZADD", k}
 	if policy == 1 {
